@@ -15,6 +15,7 @@ func init() {
 			"CH-EXH: buildStage, buildLabelPredicate, logqlmetric.build, evalExpr cover every implementer or return an error",
 			"ERR-CHECKED / ERR-PROP / ERR-NILNIL: every builder tests each callee's own error, propagates it, never returns (nil, nil); parser functions propagate errors; PV-OKUSE: parseValue's nested elements",
 			"LP-ERRPATH: stage failures become __error__ labels with the line kept",
+			"PF-ALLOC: sizes of make([]T, ..) derive from len/cap of existing data, never from a query parameter",
 		},
 		NotDecided: []string{
 			"termination of loops (lexer scanners, IPLineFilter, stepper – the last relies on C16's positivity for CLI callers)",
